@@ -27,6 +27,7 @@ RULE = ('ops: sequences of <= 30 operations (add_node, add_edge, add_edges_from_
         'nodes added in any order and linked afterwards (add_edge / add_edges_from_list in any order), grown from an inner node with add_successor / add_predecessor, '
         'a longer chain trimmed at its ends with remove_node, optionally re-indexed, or network_from_edges with the arcs in any order (so network.nodes is stored in any order relative to the chain); '
         'dict keys in any order, sometimes a key that is not a node; both conversions are repeated on the same network and the argument dicts are checked to be unchanged. rebuild (oracle only): serial_system / owmr_system / mwor_system called 2-3 times (same or different builder) with ONE set of argument objects (Policy, DemandSource, DisruptionProcess as singleton / list with or without node_order_in_lists / dict, with None entries; 1..4 nodes, random labels), the user changing the argument objects and/or the network just built between the builds; every network built so far is read after every build and at the end, and the argument objects of the caller before and after each call. non-trivial = the network after the prefix has >= 2 nodes and >= 1 arc (ops), >= 2 nodes (builders, levels, rebuild); '
+        'placement: network_from_edges with 1-3 distinct Policy / DisruptionProcess objects given as singleton, list or dict (repeats of one object, None entries, keys that are no nodes), 1-5 nodes, random labels and edges; compared with Net/Placement.v per node and by an independent oracle. '
         'distinct = distinct canonical structure (ops) / distinct argument tuple (builders, levels).')
 
 
@@ -1139,6 +1140,123 @@ def explore_rebuild(chk, n, maxn=4):
         check_rebuild_case(chk, c, run_rebuild(c))
 
 
+
+# =================================================================================================================
+# object placement: identity of the Policy / DisruptionProcess objects network_from_edges puts at the nodes
+# (model Net/Placement.v; theorems C18_place_*: no two nodes share an object, every policy's .node is its holder,
+#  the first taker keeps the caller's own object, copies carry the value of their original)
+
+def gen_place(rng, maxn=5):
+    while True:
+        c = gen_builder(rng, maxn)
+        if c['kind'] == 'nfe' and c['malformed'] is None and not c['bogus']: break
+    _, nodes = builder_nodes(c)
+    order = c['lists'] if c['lists'] is not None else sorted(nodes)
+    def objs():
+        pool = rng.randint(1, 3)                  # few distinct objects, so that lists and dicts repeat one object
+        return gen_shape(rng, nodes, order, lambda: rng.randrange(pool))
+    return {'stream': 'place', 'edges': c['edges'], 'lists': c['lists'], 'pol': objs(), 'dp': objs() if rng.random() < 0.7 else ['none']}
+
+
+def enum_place():
+    out = []
+    for n in (1, 2, 3, 4):
+        edges = [[i, i + 1] for i in range(n - 1)]
+        nodes = list(range(n))
+        for sh in (['scalar', 0], ['list', [0] * n], ['list', [0, None, 0, 1][:n]], ['dict', [[i, 0] for i in nodes]], ['dict', [[i, i % 2] for i in nodes[1:]]], ['none']):
+            out.append({'stream': 'place', 'edges': edges, 'lists': None if edges else [0], 'pol': sh, 'dp': sh})
+    return out
+
+
+def place_nodes_order(c):
+    _, nodes = builder_nodes({'kind': 'nfe', 'edges': c['edges'], 'lists': c['lists']})
+    return nodes, (c['lists'] if c['lists'] is not None else sorted(nodes))
+
+
+def run_place(c):
+    """-> ('ok', node order, policy rows [node, caller's object id or -1, .node link, id of the original or -1], same for dp without link)"""
+    from stockpyl import supply_chain_network as scn
+    from stockpyl.policy import Policy
+    from stockpyl.disruption_process import DisruptionProcess
+    pols = {}; dps = {}
+    def mkp(v):
+        if v not in pols: pols[v] = Policy(type='BS', base_stock_level=100 + v)
+        return pols[v]
+    def mkd(v):
+        if v not in dps: dps[v] = DisruptionProcess(random_process_type='M', disruption_type='OP', disruption_probability=(1 + v) / 8, recovery_probability=0.5)
+        return dps[v]
+    kw = {}
+    if c['pol'][0] != 'none': kw['inventory_policy'] = py_kw(c['pol'], mkp)
+    if c['dp'][0] != 'none': kw['disruption_process'] = py_kw(c['dp'], mkd)
+    try:
+        net = scn.network_from_edges([tuple(e) for e in c['edges']], node_order_in_lists=c['lists'], **kw)
+    except Exception as e:
+        return ('err', exc_kind(e), str(e)[:200])
+    prow = []; drow = []
+    for n in net.nodes:
+        pol = n.inventory_policy; dp = n.disruption_process
+        cid = [k for k, o in pols.items() if o is pol]
+        bs = None if pol is None else pol.base_stock_level
+        prow.append([n.index, cid[0] if cid else -1, -1 if pol is None or pol.node is None else pol.node.index, -1 if bs is None else int(bs) - 100])
+        did = [k for k, o in dps.items() if o is dp]
+        pr = None if dp is None else dp.disruption_probability
+        drow.append([n.index, did[0] if did else -1, -1 if pr is None else int(round(pr * 8)) - 1])
+    share_p = sorted(sorted(m.index for m in net.nodes if m.inventory_policy is n.inventory_policy) for n in net.nodes if n.inventory_policy is not None)
+    share_d = sorted(sorted(m.index for m in net.nodes if m.disruption_process is n.disruption_process) for n in net.nodes if n.disruption_process is not None)
+    return ('ok', [n.index for n in net.nodes], prow, drow, [g for g in share_p if len(g) > 1], [g for g in share_d if len(g) > 1])
+
+
+def coq_place(c):
+    nodes, order = place_nodes_order(c)
+    nl = lambda l: clist([cnat(x) for x in l])
+    es = clist(['(%s, %s)' % (cnat(a), cnat(b)) for a, b in c['edges']])
+    ns = '(nfe_ids %s %s)' % (es, 'None' if c['lists'] is None else '(Some %s)' % nl(c['lists']))
+    def rows(sh, link):
+        a = coq_arg(sh, cnat)
+        body = ('[Z.of_nat (fst (fst t)); (if Nat.ltb (snd (fst t)) (base %s) then Z.of_nat (snd (fst t)) else -1); %s'
+                'match data %s %s (fst (fst t)) with Some _ => Z.of_nat (place_orig %s %s %s (snd (fst t))) | None => -1 end]') % (
+                    a, 'Z.of_nat (snd t); ' if link else '', a, nl(order), ns, nl(order), a)
+        return '(map (fun t : nat * oid * nat => %s) (place_pol %s %s %s))' % (body, ns, nl(order), a)
+    return '[%s; %s]' % (rows(c['pol'], True), rows(c['dp'], False))
+
+
+def check_place_case(chk, c, im, mo=None, do_model=True):
+    nodes, order = place_nodes_order(c)
+    chk.count('place_n=%d' % len(nodes)); chk.count('place_shape_pol=%s' % c['pol'][0]); chk.count('place_shape_dp=%s' % c['dp'][0])
+    rep = lambda sh: sh[0] in ('scalar',) and len(nodes) > 1 or (sh[0] in ('list', 'dict') and len([v for v in (sh[1] if sh[0] == 'list' else [x[1] for x in sh[1]]) if v is not None]) > len({v for v in (sh[1] if sh[0] == 'list' else [x[1] for x in sh[1]]) if v is not None}))
+    shared_arg = rep(c['pol']) or rep(c['dp'])
+    chk.count('place_one_object_for_several_nodes=%s' % shared_arg)
+    if im[0] != 'ok':
+        chk.fail('network_from_edges|object-arguments-raise-%s' % im[1], 'valid object arguments raise %s: %s' % (im[1], im[2]), c)
+        chk.case(c, False); return
+    _, ids, prow, drow, share_p, share_d = im
+    where = ' (edges %r, node_order_in_lists %r, inventory_policy %r, disruption_process %r; numbers are object ids)' % (c['edges'], c['lists'], c['pol'], c['dp'])
+    # oracle (independent of the model): the documented placement
+    if share_p: chk.fail('network_from_edges|nodes-share-one-Policy-object', 'nodes %r hold one and the same Policy object%s' % (share_p, where), c)
+    if share_d: chk.fail('network_from_edges|nodes-share-one-DisruptionProcess-object', 'nodes %r hold one and the same DisruptionProcess object%s' % (share_d, where), c)
+    for n, cid, link, orig in prow:
+        if link != n: chk.fail('network_from_edges|policy.node-is-not-its-node', 'node %d: inventory_policy.node is %s%s' % (n, 'None' if link < 0 else 'node %d' % link, where), c); break
+    for what, rows, sh in (('inventory_policy', [[r[0], r[1], r[3]] for r in prow], c['pol']), ('disruption_process', drow, c['dp'])):
+        for n, cid, orig in rows:
+            e = expected_entry(sh, order, n)
+            if (-1 if e is None else e) != orig:
+                chk.fail('network_from_edges|%s-placement' % what, 'node %d holds the %s with value of object %s, the argument gives %s%s' % (n, what, orig, e, where), c); break
+    if do_model and mo is not None:
+        got = [prow, drow]
+        if mo != got:
+            chk.mismatch('network_from_edges|object-placement: model [node, caller object or -1, (link,) original or -1] %r, implementation %r%s' % (mo, got, where), c)
+    chk.case(c, len(nodes) >= 2 and (c['pol'][0] != 'none' or c['dp'][0] != 'none'), key=json.dumps(jsonable({k: v for k, v in c.items() if k != 'stream'}), sort_keys=True))
+
+
+def explore_place(chk, n, do_model=True):
+    cases = enum_place() + [gen_place(chk.rng) for _ in range(n)]
+    impl = [run_place(c) for c in cases]
+    model = [None] * len(cases)
+    if do_model:
+        model = coq_eval_sharded('c18p', 'Net.Builders Net.Placement', 'Open Scope Z_scope.', [coq_place(c) for c in cases], shard=250)
+    for c, im, mo in zip(cases, impl, model):
+        check_place_case(chk, c, im, mo, do_model)
+
 # =================================================================================================================
 # exploration
 
@@ -1498,7 +1616,7 @@ def explore_levels(chk, n, maxn, do_model=True):
 
 def run(chk):
     chk.rule = RULE
-    chk.trusted += ['models Net/Graph.v, Net/Bom.v, Net/Builders.v, Net/Levels.v are hand-written; tied to /repo by comparing, after every single operation, the complete structure (node order, predecessor/successor/product lists, network product list, BOM dicts) and every derived view with the implementation; builders and level conversions by comparing every output',
+    chk.trusted += ['models Net/Graph.v, Net/Bom.v, Net/Builders.v, Net/Levels.v, Net/Placement.v are hand-written; tied to /repo by comparing, after every single operation, the complete structure (node order, predecessor/successor/product lists, network product list, BOM dicts) and every derived view with the implementation; builders and level conversions by comparing every output',
                     'networkx (descendants / ancestors) is not modelled: the model computes reachability itself and is compared with the implementation; the oracle uses its own DFS',
                     'the oracle re-implements the documented views in Python from the raw index lists and the product BOM dicts']
     chk.assume += ['operation sequences use one network, node objects taken from the network when the index exists and fresh nodes otherwise, a fixed pool of product objects, and injective re-indexing dicts (a non-injective dict merges nodes; outside the property)',
@@ -1514,12 +1632,14 @@ def run(chk):
         explore_builders(chk, 0, [1, 2, 3, 4, 5]); explore_builders(chk, 0, [1, 2, 3, 4, 5])     # two more systematic sweeps with fresh values
     explore_levels(chk, n_l, maxl)
     explore_rebuild(chk, n_r)
+    explore_place(chk, n_r)
     if (chk.broken or chk.mismatches) and not chk.fails:
         # directed search for a failing input: larger budget, oracles only
         explore_ops(chk, 8 * n_ops if chk.tier == 'quick' else 2 * n_ops, maxlen, do_model=False)
         explore_builders(chk, 6 * n_b if chk.tier == 'quick' else n_b, sizes, do_model=False)
         explore_levels(chk, 6 * n_l if chk.tier == 'quick' else n_l, maxl, do_model=False)
         explore_rebuild(chk, 6 * n_r if chk.tier == 'quick' else n_r)
+        explore_place(chk, 6 * n_r if chk.tier == 'quick' else n_r, do_model=False)
 
 
 def replay(chk, rp):
@@ -1541,6 +1661,11 @@ def replay(chk, rp):
         im = run_impl_levels(c)
         print('implementation:', jsonable(im))
         check_levels_case(chk, c, im, None, do_model=False)
+        return
+    elif st == 'place':
+        im = run_place(c)
+        print('implementation:', jsonable(im))
+        check_place_case(chk, c, im, None, do_model=False)
         return
     elif st == 'rebuild':
         im = run_rebuild(c)
